@@ -105,7 +105,7 @@ impl Names {
     pub fn val_out(&self, v: &Value) -> String {
         match v {
             Value::String(s) => self.seg_out(s),
-            Value::Number(n) => n.to_string(),
+            Value::Number(n) => format!("j:{n}"),
             Value::Array(items) if !items.is_empty() => {
                 // structural reverse lookup in the meaning table
                 let as_gg: Option<Vec<Value>> =
